@@ -27,7 +27,7 @@ import (
 //	e500   500 5.5.2 (command not recognised)   e502  502 5.5.1
 //	okm    positive reply spread over several lines (not for the hello commands)
 //	drop   the connection is closed instead of the reply
-//	garb   a line that is not an SMTP reply
+//	garb   a line that is not an SMTP reply (it carries no token)
 //	lok / lp5   "ok" / "p5" written only after the client's time-out has passed
 //	extra  (after the final dot, LMTP) one reply more than there are recipients
 //
@@ -140,7 +140,7 @@ func replyText(k string, id int, okCode int, okLines []string) string {
 	case "seq":
 		return "503 5.5.1 " + tok + " bad sequence of commands\r\n"
 	case "garb":
-		return "garbage " + tok + "\r\n"
+		return "garbage line\r\n"
 	}
 	return "554 5.0.0 " + tok + " unknown reply kind " + k + "\r\n"
 }
